@@ -69,10 +69,12 @@ def _sig(ctx):
 
 def _pools(ctx, sig):
     if ctx == 'default':
-        return DEFAULT_MACROS, DEFAULT_ENVS, ['~', '``', "''", '--', '---', '&'], ['alpha', 'beta', 'zz']
+        # zero-argument macros usable as single-token arguments; several names are fragments of 'begin' / 'end'
+        return DEFAULT_MACROS, DEFAULT_ENVS, ['~', '``', "''", '--', '---', '&'], ['alpha', 'beta', 'zz', 'i', 'in', 'ne', 'e',
+                                                                                   'nd', 'gin', 'ben']
     mac = [m for m in CUSTOM_MACROS if ctx == 'custom' or m != 'unk']
     env = [e for e in CUSTOM_ENVS if ctx == 'custom' or e != 'zz']
-    return mac, env, ['~', '!!', '@', '--', '---', '&'], ['mz']
+    return mac, env, ['~', '!!', '@', '--', '---', '&'], (['mz', 'e', 'nd', 'in'] if ctx == 'custom' else ['mz'])
 
 
 def _case(ctx, doc, seed_layout):
@@ -114,6 +116,14 @@ def gen_cases(seed, tier):
                 c = _case(ctx, doc, rnd.randint(0, 10**9))
                 c['nt'] = _has(doc, ('macro', 'env', 'math', 'specials'))
                 cases.append(c)
+    # an argument whose parsing-state delta changes TOKENISATION (comments, math, specials off) must not affect the
+    # arguments after it: the body argument of \\link{url}{BODY} parses like the only argument of \\plain{BODY} (real code only)
+    bodies = ['$x$', 'a%c\nb', 'a~b', '{$y$} z', 'p $q$ %r\n s~t', '\\plain{$w$}', 'a']
+    for b in bodies:
+        for head in ('\\link{u}', '\\link{u%v}', '\\linko[u]', '\\linko', '\\link{$}'):
+            cases.append({'wire': [999], 'nt': True,
+                          'desc': {'ctx': 'chained', 's': head + '{' + b + '}', 'tolerant': False, 'origin': 'argument-delta',
+                                   'twin': '\\plain{' + b + '}'}})
     return cases
 
 
@@ -131,8 +141,25 @@ def _tuplify(x):
     return x
 
 
+def _oracle_argdelta(d):
+    import re, treedump
+    ra = PC.real_parse(d)
+    rb = PC.real_parse(dict(d, s=d['twin']))
+    if ra[0] != 'ok' or rb[0] != 'ok':
+        bad = ra if ra[0] != 'ok' else rb
+        return ('well-formed-document-rejected', {'error': type(bad[1]).__name__, 'message': str(bad[1])[:200]})
+    strip = lambda x: re.sub(r'\((\d+|-),(\d+|-),', '(', x)
+    a = strip(treedump.dump(ra[1][0].nodeargd.argnlist[-1]))
+    b = strip(treedump.dump(rb[1][0].nodeargd.argnlist[-1]))
+    if a != b:
+        return ('argument-parsed-under-another-arguments-state', {'after_delta_argument': a[:300], 'alone': b[:300]})
+    return None
+
+
 def oracle(c):
     d = c['desc']
+    if d.get('origin') == 'argument-delta':
+        return _oracle_argdelta(d)
     if d.get('doc') is None:
         return None
     r = PC.real_parse(d)
@@ -173,7 +200,7 @@ def distribution(cases, impl_out):
     k = collections.Counter()
     for c in cases:
         for kind in ('macro', 'env', 'math', 'specials', 'comment', 'par', 'group', 'verbmacro', 'verbenv'):
-            if _has(c['desc']['doc'], (kind,)):
+            if c['desc'].get('doc') is not None and _has(c['desc']['doc'], (kind,)):
                 k[kind] += 1
     acc = sum(1 for i in impl_out if isinstance(i, str) and i.startswith('ok'))
     return {'documents_containing': dict(k), 'accepted_by_strict_parser': acc, 'total': len(cases),
